@@ -30,6 +30,6 @@ type (
 
 const (
 	// MinTimestamp contains the minimum nanoseconds value
-	MinTimestamp = int64(-6795364578871345152)
+	MinTimestamp = math.MinInt64
 	MaxTimestamp = math.MaxInt64
 )
